@@ -35,6 +35,7 @@ from cotengra.hyperoptimizers import hyper as H
 from cotengra.pathfinders.path_basic import ReusableRandomGreedyOptimizer
 from cotengra.presets import AutoHQOptimizer, AutoOptimizer, estimate_optimal_hardness
 from cotengra.reusable import hash_contraction
+from cotengra.scoring import FlopsObjective
 
 from . import common, gen
 
@@ -258,10 +259,23 @@ class CacheProxy:
         return getattr(self._inner, name)
 
 
+class InstrumentationError(Exception):
+    """The private attributes the yield-point wrappers need are not there (any more)."""
+
+
+def _require(obj, name, pred, what):
+    if not hasattr(obj, name) or not pred(getattr(obj, name)):
+        raise InstrumentationError(f"{type(obj).__name__}.{name}: {what}")
+
+
 def instrument_reusable(ropt):
     """Install the yield points on one ReusableOptimizer instance (instance attributes only)."""
     if getattr(ropt, "_verif_instrumented", False):
         return ropt
+    _require(ropt, "_suboptimizers", lambda v: isinstance(v, dict), "expected the per-thread dict")
+    _require(ropt, "_cache", lambda v: hasattr(v, "__getitem__") and hasattr(v, "__setitem__"), "expected a mapping")
+    for nm in ("hash_query", "_get_suboptimizer", "_run_optimizer"):
+        _require(ropt, nm, callable, "expected a method")
     ropt._verif_instrumented = True
     ropt._verif_scores = {}      # thread index -> [score of each sub-search]
     ropt._verif_nsearch = {}
@@ -271,28 +285,32 @@ def instrument_reusable(ropt):
     orig_get = ropt._get_suboptimizer
     orig_run = ropt._run_optimizer
 
-    def hash_query(inputs, output, size_dict):
-        r = orig_hash(inputs, output, size_dict)
+    # the wrappers pass through whatever arguments the real methods take
+    def hash_query(*a, **kw):
+        r = orig_hash(*a, **kw)
         _yield()
         return r
 
-    def _get_suboptimizer():
-        opt = orig_get()
+    def _get_suboptimizer(*a, **kw):
+        opt = orig_get(*a, **kw)
         idx = getattr(_tls, "idx", 0)
         ropt._verif_nsearch[idx] = ropt._verif_nsearch.get(idx, 0) + 1
         orig_search = opt.search
 
-        def search(inputs, output, size_dict, **kw):
-            tree = orig_search(inputs, output, size_dict, **kw)
+        def search(*a, **kw):
+            tree = orig_search(*a, **kw)
             _yield()
             return tree
 
         opt.search = search
         return opt
 
-    def _run_optimizer(inputs, output, size_dict):
-        con = orig_run(inputs, output, size_dict)
-        ropt._verif_scores.setdefault(getattr(_tls, "idx", 0), []).append(con["score"])
+    def _run_optimizer(*a, **kw):
+        con = orig_run(*a, **kw)
+        try:
+            ropt._verif_scores.setdefault(getattr(_tls, "idx", 0), []).append(con["score"])
+        except Exception:
+            ropt._verif_scores.setdefault(getattr(_tls, "idx", 0), []).append(None)
         return con
 
     ropt.hash_query = hash_query
@@ -302,15 +320,19 @@ def instrument_reusable(ropt):
 
 
 def instrument_auto(aopt):
+    _require(aopt, "_get_optimizer_hyper_threadsafe", callable, "expected a method")
     aopt._verif_objs = {}
     aopt._verif_nsearch = {}
     orig = aopt._get_optimizer_hyper_threadsafe
 
-    def getter():
-        opt = orig()
+    def getter(*a, **kw):
+        opt = orig(*a, **kw)
         idx = getattr(_tls, "idx", 0)
         if isinstance(opt, ctg.ReusableHyperOptimizer):
-            instrument_reusable(opt)
+            try:
+                instrument_reusable(opt)
+            except InstrumentationError as e:
+                aopt._verif_instr_error = str(e)
         else:
             aopt._verif_nsearch[idx] = aopt._verif_nsearch.get(idx, 0) + 1
         aopt._verif_objs[idx] = opt
@@ -328,22 +350,45 @@ MODES = ("reusable-no", "reusable-yes", "reusable-improved", "reusable-cacheonly
          "auto-cached", "auto-plain", "autohq-cached")
 
 
-def make_optimizer(mode):
+class HookObjective(FlopsObjective):
+    """A user-supplied objective (public API: `minimize=<Objective instance>`): scores like 'flops'
+    and offers a yield point at every call.  One of the calls is `tree.get_score()` in
+    `_deconstruct_tree`, i.e. in the window between "this thread's search is finished and recorded"
+    and "its tree is fetched" -- so a controller can park a thread there without touching any
+    private attribute of the optimizer."""
+
+    __slots__ = ()
+
+    def __call__(self, trial):
+        _yield()
+        return super().__call__(trial)
+
+
+PUBLIC_MODES = ("reusable-no", "reusable-yes", "reusable-improved", "auto-cached", "auto-plain")
+
+
+def make_optimizer(mode, instr="private"):
+    """instr: 'private' = yield points on private attributes (instance wrappers); 'public' = yield
+    points only inside a user-supplied objective; 'none' = the plain object."""
+    wrap_r = instrument_reusable if instr == "private" else (lambda o: o)
+    wrap_a = instrument_auto if instr == "private" else (lambda o: o)
+    hyper_kw = dict(HYPER_KW)
+    if instr == "public":
+        hyper_kw["minimize"] = HookObjective()
     if mode.startswith("reusable"):
         kind = mode.split("-")[1]
         if kind == "rgreedy":
-            return instrument_reusable(ReusableRandomGreedyOptimizer(max_repeats=2))
+            return wrap_r(ReusableRandomGreedyOptimizer(max_repeats=2))
         ov = {"no": False, "yes": True, "improved": "improved", "cacheonly": False}[kind]
-        return instrument_reusable(ctg.ReusableHyperOptimizer(overwrite=ov, cache_only=(kind == "cacheonly"),
-                                                              **HYPER_KW))
-    kw = dict(HYPER_KW)
+        return wrap_r(ctg.ReusableHyperOptimizer(overwrite=ov, cache_only=(kind == "cacheonly"), **hyper_kw))
+    kw = dict(hyper_kw)
     kw["reconf_opts"] = {"subtree_size": 3, "maxiter": 2}
     if mode == "auto-cached":
-        return instrument_auto(AutoOptimizer(optimal_cutoff=CUTOFF, cache=True, **kw))
+        return wrap_a(AutoOptimizer(optimal_cutoff=CUTOFF, cache=True, **kw))
     if mode == "autohq-cached":
-        return instrument_auto(AutoHQOptimizer(optimal_cutoff=CUTOFF, cache=True, **kw))
+        return wrap_a(AutoHQOptimizer(optimal_cutoff=CUTOFF, cache=True, **kw))
     if mode == "auto-plain":
-        return instrument_auto(AutoOptimizer(optimal_cutoff=CUTOFF, cache=False, **kw))
+        return wrap_a(AutoOptimizer(optimal_cutoff=CUTOFF, cache=False, **kw))
     raise ValueError(mode)
 
 
@@ -361,9 +406,10 @@ def model_mode(mode):
 #  one run under a controller
 # ------------------------------------------------------------------------------------------
 
-def run_threads(mode, programs, chooser=None, free=False, use_call=False):
-    """programs: per thread, list of pool ids. Returns observation dict."""
-    opt = make_optimizer(mode)
+def run_threads(mode, programs, chooser=None, free=False, use_call=False, instr="private"):
+    """programs: per thread, list of pool ids. Returns observation dict.
+    Raises InstrumentationError (only) when instr='private' cannot be installed."""
+    opt = make_optimizer(mode, instr)
     n = len(programs)
     ctl = Controller(n, chooser or (lambda en, k: en[0]))
     ctl.free = free
@@ -405,7 +451,21 @@ def run_threads(mode, programs, chooser=None, free=False, use_call=False):
         t.join(timeout=60)
     obs = {"results": results, "errors": errors, "schedule": list(ctl.effective),
            "enabled": ctl.enabled_log, "completed": completed and all(not t.is_alive() for t in ths)}
-    # per-thread sub-search counts, scores and cached keys
+    obs["instr"] = instr
+    if instr != "private":
+        return obs
+    # per-thread sub-search counts, scores and cached keys (private attributes: best effort)
+    try:
+        _observe_private(opt, mode, programs, obs)
+    except Exception as e:
+        obs["degraded"] = f"{type(e).__name__}: {e}"
+    if getattr(opt, "_verif_instr_error", None):
+        obs["degraded"] = opt._verif_instr_error
+    return obs
+
+
+def _observe_private(opt, mode, programs, obs):
+    n = len(programs)
     nsearch, scores, cached = [], [], []
     for i in range(n):
         if mode.startswith("reusable"):
@@ -437,7 +497,6 @@ def run_threads(mode, programs, chooser=None, free=False, use_call=False):
     else:
         ids = {}
         obs["obj_of"] = [ids.setdefault(id(opt._verif_objs.get(i, i)), len(ids)) for i in range(n)]
-    return obs
 
 
 def oracle(programs, obs, mode=None):
@@ -486,19 +545,40 @@ def signature(mode, programs, bad):
     return sig
 
 
-def check_schedule(ctx, drv, mode, programs, chooser, tag):
-    obs = run_threads(mode, programs, chooser)
-    ctx.count(f"E:{tag}:{mode}")
-    ctx.count("E:steps", len(obs["schedule"]))
+_DEGRADED = {}
+
+
+def check_schedule(ctx, drv, mode, programs, chooser, tag, instr="private"):
+    """One forced schedule. instr='private': yield points on the private attributes + comparison
+    with the model; instr='public': yield points inside the user objective only, oracle only.
+    Never raises on behalf of the real code: a missing private attribute is recorded as a broken
+    correspondence (once per message) and the run falls back to the public yield points."""
+    if instr == "private" and _DEGRADED.get(mode.split("-")[0]):
+        instr = "public" if mode in PUBLIC_MODES else "none"
+    try:
+        obs = run_threads(mode, programs, chooser, instr=instr)
+    except InstrumentationError as e:
+        fam = mode.split("-")[0]
+        if not _DEGRADED.get(fam):
+            _DEGRADED[fam] = str(e)
+            ctx.corr_broken("instrumentation of the private yield points is not possible: " + str(e),
+                            {"mode": mode})
+        instr = "public" if mode in PUBLIC_MODES else "none"
+        obs = run_threads(mode, programs, chooser, instr=instr)
+    pre = "E" if instr == "private" else "P"
+    ctx.count(f"{pre}:{tag}:{mode}")
+    ctx.count(f"{pre}:steps", len(obs["schedule"]))
     sw = sum(1 for a, b in zip(obs["schedule"], obs["schedule"][1:]) if a != b)
-    ctx.count("E:context_switches", sw)
+    ctx.count(f"{pre}:context_switches", sw)
     for per in obs["errors"]:
         for e in per:
-            ctx.count("E:raised:" + e)
-    hits = sum(len(p) for p in programs) - sum(obs["nsearch"])
-    if mode != "auto-plain" and hits > 0:
-        ctx.count("E:answers_without_search", hits)
-    case = {"kind": "schedule", "mode": mode, "programs": programs, "schedule": obs["schedule"]}
+            ctx.count(f"{pre}:raised:" + e)
+    if "nsearch" in obs:
+        hits = sum(len(p) for p in programs) - sum(obs["nsearch"])
+        if mode != "auto-plain" and hits > 0:
+            ctx.count("E:answers_without_search", hits)
+    case = {"kind": "schedule", "mode": mode, "programs": programs, "schedule": obs["schedule"],
+            "instr": instr}
     nontrivial = (len(programs) > 1 and sw > 0) or any(len(p) > 1 for p in programs)
     ctx.case(case, nontrivial=nontrivial)
     bad = oracle(programs, obs, mode)
@@ -506,15 +586,22 @@ def check_schedule(ctx, drv, mode, programs, chooser, tag):
         ctx.violation(signature(mode, programs, bad), {"case": case, "failed": [bad[0], bad[1]]},
                       f"{mode}: {bad[0]} {bad[1]}")
         return obs, False
-    if drv is not None:
-        diff = model_compare(drv, mode, programs, obs)
+    if obs.get("degraded"):
+        if not _DEGRADED.get("obs:" + mode.split("-")[0]):
+            _DEGRADED["obs:" + mode.split("-")[0]] = obs["degraded"]
+            ctx.corr_broken("private state could not be observed: " + obs["degraded"], case)
+    elif drv is not None and instr == "private":
+        try:
+            diff = model_compare(drv, mode, programs, obs)
+        except Exception as e:
+            diff = f"comparison failed: {type(e).__name__}: {e}"
         ctx.traces += 1
         if diff:
             ctx.corr_broken("c16.run: " + diff, case)
     return obs, True
 
 
-def explore_all(ctx, drv, mode, programs, max_runs, tag="exhaustive"):
+def explore_all(ctx, drv, mode, programs, max_runs, tag="exhaustive", instr="private"):
     """Stateless DFS over the enabled threads: every maximal interleaving exactly once."""
     prefix = []
     runs = 0
@@ -528,7 +615,7 @@ def explore_all(ctx, drv, mode, programs, max_runs, tag="exhaustive"):
                 return enabled[pf[k]]
             return enabled[0]
 
-        obs, _ = check_schedule(ctx, drv, mode, programs, chooser, tag)
+        obs, _ = check_schedule(ctx, drv, mode, programs, chooser, tag, instr=instr)
         runs += 1
         # positions chosen in this run
         pos = [en.index(ch) for en, ch in zip(obs["enabled"], obs["schedule"])]
@@ -550,7 +637,7 @@ def stress(ctx, mode, nthreads, nq, use_call=False):
     old = sys.getswitchinterval()
     sys.setswitchinterval(1e-6)
     try:
-        obs = run_threads(mode, programs, free=True, use_call=use_call)
+        obs = run_threads(mode, programs, free=True, use_call=use_call, instr="none")
     finally:
         sys.setswitchinterval(old)
     ctx.count(f"S:stress:{mode}" + (":call" if use_call else ""))
@@ -774,7 +861,13 @@ def replay_case(case):
                 return sched[k]
             return enabled[0]
 
-        obs = run_threads(case["mode"], case["programs"], chooser)
+        instr = case.get("instr", "private")
+        try:
+            obs = run_threads(case["mode"], case["programs"], chooser, instr=instr)
+        except InstrumentationError:
+            # the schedule was recorded at the private yield points, which are gone: the same
+            # programs under every public-hook interleaving instead
+            return replay_public_all(case["mode"], case["programs"])
         bad = oracle(case["programs"], obs, case["mode"])
         return bad is None, (signature(case["mode"], case["programs"], bad) if bad else None), bad
     if kind == "stress":
@@ -783,7 +876,8 @@ def replay_case(case):
             old = sys.getswitchinterval()
             sys.setswitchinterval(1e-6)
             try:
-                obs = run_threads(case["mode"], case["programs"], free=True, use_call=case.get("call", False))
+                obs = run_threads(case["mode"], case["programs"], free=True, use_call=case.get("call", False),
+                                  instr="none")
             finally:
                 sys.setswitchinterval(old)
             bad = oracle(case["programs"], obs, case["mode"])
@@ -800,6 +894,32 @@ def replay_case(case):
                                        "kind": "tree-of-another-contraction"}, ("tree-of-another-contraction", [nid, got])
         return True, None, None
     raise ValueError(kind)
+
+
+def replay_public_all(mode, programs, max_runs=400):
+    """Oracle over every interleaving of the public yield points (no ctx)."""
+    if mode not in PUBLIC_MODES:
+        return True, None, None
+    prefix, runs = [], 0
+    while runs < max_runs:
+        pf = list(prefix)
+
+        def chooser(enabled, k, pf=pf):
+            return enabled[pf[k]] if k < len(pf) and pf[k] < len(enabled) else enabled[0]
+
+        obs = run_threads(mode, programs, chooser, instr="public")
+        runs += 1
+        bad = oracle(programs, obs, mode)
+        if bad is not None:
+            return False, signature(mode, programs, bad), bad
+        pos = [en.index(ch) for en, ch in zip(obs["enabled"], obs["schedule"])]
+        k = len(pos) - 1
+        while k >= 0 and pos[k] + 1 >= len(obs["enabled"][k]):
+            k -= 1
+        if k < 0:
+            break
+        prefix = pos[:k] + [pos[k] + 1]
+    return True, None, None
 
 
 def random_programs(rng, nthreads, maxq, mode):
@@ -833,7 +953,7 @@ def run(ctx, drv):
         ctx.obligation("fact extraction from reusable.py / presets.py / path_basic.py", False, repr(e))
 
     # E1: every interleaving of small programs
-    ex = [("reusable-no", [[3], [3]]), ("reusable-no", [[3], [4]]), ("reusable-yes", [[3], [3]]),
+    ex = [("reusable-improved", [[4, 3, 4]]), ("reusable-improved", [[3, 4, 3]]), ("reusable-no", [[3], [3]]), ("reusable-no", [[3], [4]]), ("reusable-yes", [[3], [3]]),
           ("reusable-cacheonly", [[3], [3]]), ("reusable-rgreedy", [[4], [4]]),
           ("auto-cached", [[3], [3]]), ("auto-plain", [[3], [4]]), ("reusable-no", [[3], [7]]),
           ("reusable-improved", [[3], [3]])]
@@ -850,8 +970,32 @@ def run(ctx, drv):
     ctx.notes["exhaustive_interleavings"] = exnotes
     ctx.exhaustive = False  # the property's space (all programs) is infinite; see notes for the finite parts
 
+    # P: the same kind of exploration through *public* hooks only (a user-supplied Objective whose
+    # calls are the yield points; one of them sits between "search recorded" and "tree fetched")
+    pub = [("reusable-no", [[3], [4]]), ("reusable-yes", [[4], [3]]), ("reusable-improved", [[3], [4]]),
+           ("auto-cached", [[3], [4]]), ("auto-plain", [[3], [4]]), ("reusable-no", [[3, 4], [4]])]
+    if not quick:
+        pub += [("reusable-no", [[3], [4], [5]]), ("reusable-yes", [[3, 4], [4, 3]]),
+                ("reusable-improved", [[3, 4, 3], [4]])]
+    pnotes = []
+    for mode, programs in pub:
+        runs, complete = explore_all(ctx, None, mode, programs, max_runs=400 if quick else 5000,
+                                     tag="public-exhaustive", instr="public")
+        pnotes.append({"mode": mode, "programs": programs, "interleavings": runs, "complete": complete})
+    ctx.notes["public_hook_interleavings"] = pnotes
+    for _ in range(150 if quick else 2000):
+        if ctx.time_left() < 60:
+            break
+        mode = rng.choice(PUBLIC_MODES)
+        programs = [[rng.choice([3, 3, 4, 5, 6, 7]) for _ in range(rng.randint(1, 3))]
+                    for _ in range(rng.choice([2, 2, 3]))]
+        import random as _r
+        r3 = _r.Random(rng.randrange(1 << 30))
+        check_schedule(ctx, None, mode, programs, lambda en, k, r3=r3: r3.choice(en), "public-random",
+                       instr="public")
+
     # E2: random programs x random schedules
-    n2 = 1200 if quick else 12000
+    n2 = 1200 if quick else 9000
     for _ in range(n2):
         if ctx.time_left() < 60:
             break
@@ -862,6 +1006,16 @@ def run(ctx, drv):
         import random as _r
         r2 = _r.Random(seed)
         check_schedule(ctx, drv, mode, programs, lambda en, k, r2=r2: r2.choice(en), "random")
+
+    # E3: sequential histories with revisits on one thread (X, Y, X ...), every mode
+    for i in range(240 if quick else 2500):
+        if ctx.time_left() < 45:
+            break
+        mode = MODES[i % len(MODES)]
+        ids = [3, 4, 5, 6, 7] if mode.startswith("reusable") else [0, 1, 3, 4, 5, 6]
+        a, b = rng.sample(ids, 2)
+        hist = [a, b, a] + [rng.choice([a, b, rng.choice(ids)]) for _ in range(rng.randint(0, 3))]
+        check_schedule(ctx, drv, mode, [hist], None, "sequential")
 
     # S: free-running stress, sequential reuse, presets
     ns = 64 if quick else 800
@@ -882,34 +1036,67 @@ def run(ctx, drv):
 
 
 def search(ctx):
-    """Implementation-only search: random programs/schedules and stress, oracle only."""
+    """Implementation-only search that needs no private attribute: interleavings forced through the
+    public hook (user-supplied Objective), all of them for small programs and random ones for
+    larger, plus free-running stress on the plain objects."""
     import random as _r
     rng = ctx.rng
     found = False
+
+    def report(mode, programs, case, bad):
+        sig = signature(mode, programs, bad)
+        sig["found_by"] = "search"
+        return ctx.violation(sig, {"case": case, "failed": [bad[0], bad[1]]},
+                             f"failing input found by search: {mode}: {bad[0]} {bad[1]}")
+
+    # 1. every public-hook interleaving of two threads asking different uncached contractions
+    for mode in PUBLIC_MODES:
+        for programs in ([[3], [4]], [[4], [3]], [[3, 4], [4]]):
+            if found or ctx.time_left() < 10:
+                break
+            prefix = []
+            for _ in range(400):
+                pf = list(prefix)
+                obs = run_threads(mode, programs, lambda en, k, pf=pf: en[pf[k]] if k < len(pf) and pf[k] < len(en)
+                                  else en[0], instr="public")
+                bad = oracle(programs, obs, mode)
+                if bad is not None:
+                    case = {"kind": "schedule", "mode": mode, "programs": programs,
+                            "schedule": obs["schedule"], "instr": "public"}
+                    found = bool(report(mode, programs, case, bad))
+                    break
+                pos = [en.index(ch) for en, ch in zip(obs["enabled"], obs["schedule"])]
+                k = len(pos) - 1
+                while k >= 0 and pos[k] + 1 >= len(obs["enabled"][k]):
+                    k -= 1
+                if k < 0:
+                    break
+                prefix = pos[:k] + [pos[k] + 1]
+    # 2. random programs: public-hook schedules and free-running stress
     for i in range(3000):
         if ctx.time_left() < 10 or found:
             break
-        mode = rng.choice(MODES)
-        programs = random_programs(rng, rng.choice([1, 2, 3]), 4, mode)
-        if i % 4 == 3:
+        if i % 3 == 2:
+            mode = rng.choice(MODES)
+            programs = random_programs(rng, rng.choice([2, 3, 4]), 4, mode)
             case = {"kind": "stress", "mode": mode, "programs": programs, "call": False}
             old = sys.getswitchinterval()
             sys.setswitchinterval(1e-6)
             try:
-                obs = run_threads(mode, programs, free=True)
+                obs = run_threads(mode, programs, free=True, instr="none")
             finally:
                 sys.setswitchinterval(old)
         else:
+            mode = rng.choice(PUBLIC_MODES)
+            programs = [[rng.choice([3, 3, 4, 5, 6, 7]) for _ in range(rng.randint(1, 3))]
+                        for _ in range(rng.choice([1, 2, 3]))]
             r2 = _r.Random(rng.randrange(1 << 30))
-            obs = run_threads(mode, programs, lambda en, k: r2.choice(en))
-            case = {"kind": "schedule", "mode": mode, "programs": programs, "schedule": obs["schedule"]}
+            obs = run_threads(mode, programs, lambda en, k: r2.choice(en), instr="public")
+            case = {"kind": "schedule", "mode": mode, "programs": programs, "schedule": obs["schedule"],
+                    "instr": "public"}
         bad = oracle(programs, obs, mode)
         if bad is not None:
-            sig = signature(mode, programs, bad)
-            sig["found_by"] = "search"
-            if ctx.violation(sig, {"case": case, "failed": [bad[0], bad[1]]},
-                             f"failing input found by search: {mode}: {bad[0]} {bad[1]}"):
-                found = True
+            found = bool(report(mode, programs, case, bad))
     return found
 
 
